@@ -41,7 +41,9 @@ pub fn generate(rng: &mut Rng, seed: u64, run: u64, max_len: usize) -> Trace {
     let faults = if rng.chance(1, 4) {
         vec![]
     } else {
-        let text_len = expected_tagged(&wl.bytes).len();
+        // (generation never dies with the code under test: a panic of the extractor on this input is
+        // for the executor to report)
+        let text_len = catch(|| expected_tagged(&wl.bytes).len()).unwrap_or(wl.bytes.len());
         gen_faults(rng, text_len, &[], true)
     };
     let mut params = Vec::new();
